@@ -183,8 +183,25 @@ Proof.
   - apply (seq_only_backpressure_blocks _ _ _ _ _ _ _ (fold_wf combine empty icaps ocaps) (fold_simple combine empty icaps ocaps)).
 Qed.
 
-(* which send can be the blocked one is read off the plans: Filter, Take, TakeWhile only ever wait for the
-   consumer of out 0; ForEach / Void never wait for anybody *)
+(* the same, spelled out once for the list of stage configurations *)
+Theorem stages_only_backpressure_blocks_all :
+  forall c, In c [map_cfg f try icaps ocaps; fmap_cfg fa try icaps ocaps; filter_cfg p icaps ocaps;
+                  partition_cfg p icaps ocaps; take_cfg n icaps ocaps; takewhile_cfg p icaps ocaps;
+                  visit_cfg icaps ocaps; fold_cfg combine empty icaps ocaps] ->
+  forall s, reachable c s -> quiescent c s ->
+    wc (ws s 0) = WDone \/
+    (wc (ws s 0) = WRecv /\ cbuf (ins s 0) = [] /\ cclosed (ins s 0) = false /\
+     forall x, step c s (ESent 0 x) <> None) \/
+    (exists e a k v rest, wc (ws s 0) = WRun e (a :: rest) /\ sends_on a k v /\
+                          has_room (outs s k) = false /\ cclosed (outs s k) = false).
+Proof.
+  intros c Hin. destruct stages_only_backpressure_blocks as (H1 & H2 & H3 & H4 & H5 & H6 & H7 & H8).
+  cbn [In] in Hin.
+  destruct Hin as [<-|[<-|[<-|[<-|[<-|[<-|[<-|[<-|[]]]]]]]]]; assumption.
+Qed.
+
+(* which send can be the blocked one is read off the plans; the extreme case: ForEach / Void send nothing,
+   so they never wait for anybody - case (c) does not occur *)
 Theorem visit_never_blocked s :
   reachable (visit_cfg icaps ocaps) s -> quiescent (visit_cfg icaps ocaps) s ->
   wc (ws s 0) = WDone \/
